@@ -16,7 +16,8 @@ Driver of the BigInt model (ops prefixed `big`).
   bighdx <v> 8 d hi              all lo in 0..255      -> `hash exactCount`
 
 op tokens: as:K:x ad:K:x sb:K:x or:K:x an:K:x mu:x dv:d sl:k sr:k lt:x le:x gt:x ge:x eq:x ne:x
-           ib nz iz nu nw:K ff fl cl
+           ib nz iz nu nw:K ff fl cl   and, with a second object t:  sv (t = x)  ld (x = t)  mv (x = move(t));
+           the token of sv/ld/mv is `idx/words/_~idxT/wordsT`
 -/
 namespace Qentem.Driver.BigInt
 open Qentem.Driver Qentem.BigInt
@@ -46,6 +47,10 @@ def parseOp (t : String) : Option Op :=
     | _, _ => none
   | _ => none
 
+def parseOp2 (t : String) : Option Op2 :=
+  if t == "sv" then some .save else if t == "ld" then some .load else if t == "mv" then some .move
+  else (parseOp t).map .on
+
 def trimZeros (ws : List Nat) : List Nat :=
   (ws.reverse.dropWhile (· == 0)).reverse
 
@@ -57,12 +62,17 @@ def showRet : Ret → String
 def showState (s : Big) (r : Ret) : String :=
   toString s.idx ++ "/" ++ showNats (trimZeros s.words) ++ "/" ++ showRet r
 
-def runSeq (c : Cfg) : Big → List Op → List String → List String
+def showPair (p : Pair) (o : Op2) (r : Ret) : String :=
+  match o with
+  | .on _ => showState p.x r
+  | _ => showState p.x r ++ "~" ++ toString p.t.idx ++ "/" ++ showNats (trimZeros p.t.words)
+
+def runSeq (c : Cfg) : Pair → List Op2 → List String → List String
   | _, [], acc => acc.reverse
-  | s, o :: os, acc =>
-    match step c s o with
-    | .ok (s', r) => runSeq c s' os (showState s' r :: acc)
-    | .error _ => runSeq c s os ("pre" :: acc)
+  | p, o :: os, acc =>
+    match step2 c p o with
+    | .ok (p', r) => runSeq c p' os (showPair p' o r :: acc)
+    | .error _ => runSeq c p os ("pre" :: acc)
 
 def parseRet (t : String) : Option Ret :=
   if t == "_" then some .none else if t == "T" then some (.bool true) else if t == "F" then some (.bool false)
@@ -77,33 +87,67 @@ def parseToken (n : Nat) (t : String) : Option (Big × Ret) :=
     | _, _, _ => none
   | _ => none
 
-/-- The property predicate on a trace of the implementation (see header). -/
-def oracle (W n : Nat) : Nat → Option Nat → List Op → List String → Nat → String
-  | _, _, [], _, checked => "ok " ++ toString checked
-  | _, _, _ :: _, [], _ => "bad-op"
-  | k, a, o :: os, t :: ts, checked =>
+def parseT (n : Nat) (t : String) : Option Big :=
+  match t.splitOn "/" with
+  | [i, w] =>
+    match i.toNat?, parseNats w with
+    | some i, some ws => if ws.length ≤ n then some ⟨ws ++ List.replicate (n - ws.length) 0, i⟩ else none
+    | _, _ => none
+  | _ => none
+
+def resync (W n : Nat) (s : Big) : Option Nat := if s == canon W n (s.val W) then some (s.val W) else none
+
+def describe (W n : Nat) (k : Nat) (who : String) (s : Big) (v : Nat) : String :=
+  "bad " ++ toString k ++ " value-expected:" ++ toString v ++ " held:" ++ toString (s.val W) ++ " idx:" ++ toString s.idx
+    ++ " expected-idx:" ++ toString (canon W n v).idx ++ " object:" ++ who
+
+/-- The property predicate on a trace of the implementation (see header): `a`/`b` are the exact integers
+held by x / t while everything so far fitted (`none` after an operation that did not fit, until the
+object is canonical again). -/
+def oracle (W n : Nat) : Nat → Option Nat → Option Nat → List Op2 → List String → Nat → String
+  | _, _, _, [], _, checked => "ok " ++ toString checked
+  | _, _, _, _ :: _, [], _ => "bad-op"
+  | k, a, b, o :: os, t :: ts, checked =>
     if t == "pre" then
-      match a with
-      | some v =>
-        if (specStep W n v o).isSome then "bad " ++ toString k ++ " skipped-but-spec-defined"
-        else oracle W n (k + 1) a os ts checked
-      | none => oracle W n (k + 1) a os ts checked
+      match a, o with
+      | some v, .on o' =>
+        if (specStep W n v o').isSome then "bad " ++ toString k ++ " skipped-but-spec-defined"
+        else oracle W n (k + 1) a b os ts checked
+      | _, .on _ => oracle W n (k + 1) a b os ts checked
+      | _, _ => "bad " ++ toString k ++ " skipped-but-spec-defined"
     else
-      match parseToken n t with
-      | none => "bad " ++ toString k ++ " unparsable-token"
-      | some (s, r) =>
-        let resync : Option Nat := if s == canon W n (s.val W) then some (s.val W) else none
-        match a with
-        | some v =>
-          match specStep W n v o with
-          | some (v', r') =>
-            if s != canon W n v' then
-              "bad " ++ toString k ++ " value-expected:" ++ toString v' ++ " held:" ++ toString (s.val W)
-                ++ " idx:" ++ toString s.idx ++ " expected-idx:" ++ toString (canon W n v').idx
-            else if r != r' then "bad " ++ toString k ++ " returned:" ++ showRet r ++ " expected:" ++ showRet r'
-            else oracle W n (k + 1) (some v') os ts (checked + 1)
-          | none => oracle W n (k + 1) resync os ts checked
-        | none => oracle W n (k + 1) resync os ts checked
+      match o with
+      | .on o' =>
+        match parseToken n t with
+        | none => "bad " ++ toString k ++ " unparsable-token"
+        | some (s, r) =>
+          match a with
+          | some v =>
+            match specStep W n v o' with
+            | some (v', r') =>
+              if s != canon W n v' then describe W n k "x" s v'
+              else if r != r' then "bad " ++ toString k ++ " returned:" ++ showRet r ++ " expected:" ++ showRet r'
+              else oracle W n (k + 1) (some v') b os ts (checked + 1)
+            | none => oracle W n (k + 1) (resync W n s) b os ts checked
+          | none => oracle W n (k + 1) (resync W n s) b os ts checked
+      | _ =>
+        match t.splitOn "~" with
+        | [tx, tt] =>
+          match parseToken n tx, parseT n tt with
+          | some (sx, _), some st =>
+            -- both objects must be tracked: the destination's invariant is a precondition of `copy`
+            let src : Option Nat := match a, b with
+              | some va, some vb => (match o with | .save => some va | _ => some vb)
+              | _, _ => none
+            match src with
+            | some v =>
+              let bexp : Nat := match o with | .move => 0 | _ => v
+              if sx != canon W n v then describe W n k "x" sx v
+              else if st != canon W n bexp then describe W n k "t" st bexp
+              else oracle W n (k + 1) (some v) (some bexp) os ts (checked + 1)
+            | none => oracle W n (k + 1) (resync W n sx) (resync W n st) os ts checked
+          | _, _ => "bad " ++ toString k ++ " unparsable-token"
+        | _ => "bad " ++ toString k ++ " unparsable-token"
 
 def parseVariant (v : String) (W : Nat) : Option Cfg :=
   if v == "hand" then some ⟨W, true⟩ else if v == "nat" then some ⟨W, false⟩ else none
@@ -138,8 +182,8 @@ def handle (op : String) (args : List String) : String :=
   if op == "bigseq" then
     match args with
     | w :: n :: ops =>
-      match w.toNat?, n.toNat?, ops.mapM parseOp with
-      | some W, some n, some ops => " ".intercalate (runSeq (Cfg.std W) (zero n) ops [])
+      match w.toNat?, n.toNat?, ops.mapM parseOp2 with
+      | some W, some n, some ops => " ".intercalate (runSeq (Cfg.std W) ⟨zero n, zero n⟩ ops [])
       | _, _, _ => "bad-op"
     | _ => "bad-op"
   else if op == "bigoracle" then
@@ -148,8 +192,8 @@ def handle (op : String) (args : List String) : String :=
       match w.toNat?, n.toNat?, k.toNat? with
       | some W, some n, some k =>
         if rest.length != 2 * k then "bad-op" else
-        match (rest.take k).mapM parseOp with
-        | some ops => oracle W n 0 (some 0) ops (rest.drop k) 0
+        match (rest.take k).mapM parseOp2 with
+        | some ops => oracle W n 0 (some 0) (some 0) ops (rest.drop k) 0
         | none => "bad-op"
       | _, _, _ => "bad-op"
     | _ => "bad-op"
